@@ -380,8 +380,17 @@ func scenarios(tier string, yield0 func(any) bool) {
 		}
 	}
 	mixes = append(mixes, "FFF", "FTF", "FFT", "WFW", "WWF", "S", "SF", "FS", "SS", "ST", "SU")
+	if os.Getenv("VERIF_C13_SUBSET") == "stream" {
+		// as the listener-wrapper part of C01: what the wrapped listener's consumer reads is the
+		// client's stream from the first unconsumed byte (plain, after a consuming route, after
+		// PROXY-header stripping, after TLS termination followed by further matching)
+		mixes = []string{"F", "G", "W", "S", "FG", "WS", "GW"}
+	}
 	for _, m := range mixes {
 		for _, cons := range []string{"eager", "late", "never"} {
+			if os.Getenv("VERIF_C13_SUBSET") == "stream" && cons == "never" {
+				continue
+			}
 			for _, procs := range []int{1, 2} {
 				closes := []int{-1}
 				for k := 0; k <= len(m); k++ {
